@@ -359,6 +359,7 @@ impl Heap {
         let (progs, drv, exh_len, cut_programs) = match (ctx.flavour, ctx.tier) {
             (Flavour::Rel, Tier::Quick) => (20_000, 20_000, 4, 150),
             (Flavour::Rel, Tier::Thorough) => (1_000_000, 1_000_000, 5, 5_000),
+            (Flavour::Miri, _) => (60, 150, 2, 6),
             (_, Tier::Quick) => (1_000, 1_000, 3, 10),
             _ => (20_000, 20_000, 4, 100),
         };
@@ -676,6 +677,10 @@ impl Check for Heap {
     fn post(&mut self, ctx: &Ctx, merged: &mut Stats) {
         if ctx.flavour == Flavour::Rel && ctx.tier == Tier::Thorough {
             crate::sup::run_sub_flavour(self.id(), ctx, Flavour::Asan, merged);
+            // Miri: aliasing / provenance / leaks in the collector and in the object constructors, shadow heap off
+            let mctx = Ctx { seed: ctx.seed, tier: ctx.tier, flavour: Flavour::Miri };
+            let n = self.fams(&mctx).total();
+            crate::sup::run_miri(self.id(), ctx, 0, n, 16, merged);
         }
     }
 }
